@@ -185,15 +185,26 @@ pub async fn start_tls_server(c: &Cell, trust: &str, filter: AddressFilter, ip: 
     } else {
         None
     };
-    let (listener, addr) = listen(ip).await;
+    let (mut listener, mut addr) = listen(ip).await;
     let handle = if c.spawn {
-        // spawn_* binds by itself: release the port and let it bind again
-        drop(listener);
-        match auth {
-            Some(a) => spawn_tls_server_task_with_authz(max_sessions, addr, app.map.clone(), a, cfg, filter, DecodeLevel::nothing()).await,
-            None => spawn_tls_server_task(max_sessions, addr, app.map.clone(), cfg, filter, DecodeLevel::nothing()).await,
+        // spawn_* binds by itself: release the port and let it bind again; when somebody else was
+        // handed the port in between, the bind fails and another port is tried
+        let mut tries = 0;
+        loop {
+            drop(listener);
+            let r = match auth.clone() {
+                Some(a) => spawn_tls_server_task_with_authz(max_sessions, addr, app.map.clone(), a, cfg.clone(), filter.clone(), DecodeLevel::nothing()).await,
+                None => spawn_tls_server_task(max_sessions, addr, app.map.clone(), cfg.clone(), filter.clone(), DecodeLevel::nothing()).await,
+            };
+            match r {
+                Ok(h) => break h,
+                Err(e) if tries >= 8 => return Err(format!("spawn: {e}")),
+                Err(_) => {
+                    tries += 1;
+                    (listener, addr) = listen(ip).await;
+                }
+            }
         }
-        .map_err(|e| format!("spawn: {e}"))?
     } else {
         let (h, task) = match auth {
             Some(a) => create_tls_server_task_with_authz(max_sessions, listener, app.map.clone(), a, cfg, filter, DecodeLevel::nothing()),
